@@ -287,6 +287,7 @@ func (e *End) Read(p []byte) (int, error) {
 			case <-tm.C:
 			}
 		}
+		poke(e.rnotify) // as for writes: a second goroutine blocked reading the same endpoint is woken too
 		s.Park(e.Name + ".R+")
 	}
 }
@@ -430,6 +431,10 @@ func (e *End) Write(p []byte) (int, error) {
 			case <-tm.C:
 			}
 		}
+		// Two goroutines can be blocked writing to one endpoint (the relays of two peers of an upstream
+		// group both write to the client): the notification has one slot, so whoever is woken passes it on.
+		// With nobody else waiting the token stays in the slot and is drained at the top of the loop.
+		poke(e.wnotify)
 		s.Park(e.Name + ".W+")
 	}
 }
